@@ -3,7 +3,7 @@ import vlib
 from checkflow import Interactive
 from props import hc_common as H
 from props import c01
-from gen_hc import Sim, Net, pick_cfg, random_traffic, pick_len
+from gen_hc import F, Sim, Net, pick_cfg, random_traffic, pick_len
 
 PROP = "C05"
 LAKE_TARGETS = ["Uflow.Props.C05", "uflow_driver"]
@@ -24,13 +24,22 @@ def streams(rng, tier, ctx):
             cfg = pick_cfg(r)
             if i % 3 == 0:
                 cfg["allocA"] = cfg["allocB"] = r.pick([8 * 1448, 12000, 30000]); cfg["pw"] = r.pick([4, 16, 64])
+            big = (i % 6 == 4)
+            if big:
+                # packets of more than 64 (and more than 128) fragments, cut across many flushes with acknowledgements of
+                # the early fragments arriving in between
+                cfg["allocA"] = cfg["allocB"] = 1_000_000; cfg["bwA"] = cfg["bwB"] = r.pick([2_000_000, 20_000_000])
             sim = Sim(r, cfg, inter=it)
-            lat = r.pick([0, 1_000_000, 20_000_000, 150_000_000])
+            lat = r.pick([0, 1_000_000, 20_000_000, 150_000_000]) if not big else r.pick([0, 1_000_000, 5_000_000])
             net = Net(latency=lat)
             dt = r.pick([250_000, 1_000_000, 5_000_000, 16_000_000, 100_000_000])
             both = r.chance(1, 2)
             lim = min(6000, cfg["allocA"])
+            nbig = [0]
             def tr(sim, ep):
+                if big and (ep == "A" or both) and nbig[0] < 3 and sim.tick % 7 == 1:
+                    nbig[0] += 1
+                    sim.send(ep, r.pick([0, 1]), r.pick([3, 2, 1]), r.pick([65 * F + 3, 70 * F, 100_000, 130 * F + 7, 200_000]))
                 if (ep == "A" or both) and sim.tick < 60 and r.chance(1, 2):
                     for _ in range(r.range(1, 8)):
                         ln = r.pick([0, 1, 10, 100, 724, 1448, 1449, 1810, 2 * 1448 - 1, 3000, r.range(0, lim)])
